@@ -52,7 +52,7 @@ def run(expr):
         return "%s evaluates to %r with the DSL, %r with ordinary arithmetic" % (expr, got, want)
     return None
 
-expr = '(3.0 / (b / c))'
+expr = '(a ** (-b))'
 bad = run(expr)
 print("FAIL: " + bad if bad else "PASS")
 sys.exit(1 if bad else 0)
